@@ -420,7 +420,9 @@ Proof.
       intros _ d1 d2 o2 r2 H2.
       assert (Q1 : quiet (d0 <- get ;; put (d_set_shouldstop d0 true))) by (intros d0; qs).
       apply (step_rel_quiet_l _ _ _ _ _ _ Q1) in H2; [exact H2|].
-      intros _ d3 d4 o4 r4 H4. eapply errordown_step; eauto.
+      intros _ d3 d4 o4 r4 H4.
+      apply (step_rel_quiet_l _ _ _ _ _ _ quiet_triggershutdown) in H4; [exact H4|].
+      intros _ d5 d6 o6 r6 H6. eapply errordown_step; eauto.
     + cbn [d_handle]. apply errordown_step.
   - intros H. eapply quiet_step; [apply quiet_handle; exact Ed|exact H].
 Qed.
